@@ -220,10 +220,20 @@ func (h CarHeader) Matches(other CarHeader) bool {
 		return h.Roots[0].Equals(other.Roots[0])
 	}
 
-	// Check other contains all roots.
+	// Check other contains all roots, pairing each root at most once so that
+	// duplicate roots are counted: [a, a] does not match [a, b].
 	// TODO: should this be optimised for cases where the number of roots are large since it has O(N^2) complexity?
+	paired := make([]bool, len(other.Roots))
 	for _, r := range h.Roots {
-		if !other.containsRoot(r) {
+		found := false
+		for i, o := range other.Roots {
+			if !paired[i] && o.Equals(r) {
+				paired[i] = true
+				found = true
+				break
+			}
+		}
+		if !found {
 			return false
 		}
 	}
